@@ -10,6 +10,7 @@ import (
 	"os"
 	"os/exec"
 	"runtime"
+	"strings"
 	"time"
 
 	"evylang.dev/evy/pkg/cli/svg"
@@ -98,11 +99,8 @@ func (rt *Platform) Cls() {
 
 // Read reads a line of input from stdin and strips trailing newline.
 func (rt *Platform) Read() string {
-	s, err := rt.reader.ReadString('\n')
-	if err != nil {
-		panic(err)
-	}
-	return s[:len(s)-1] // strip trailing newline
+	s, _ := rt.reader.ReadString('\n') // at end of input: what was read so far, possibly ""
+	return strings.TrimSuffix(s, "\n") // strip trailing newline
 }
 
 // Sleep sleeps for dur. If the --skip-sleep flag is used, it does nothing.
